@@ -345,6 +345,33 @@ static void trace_sized(rng & r, std::ofstream & out, long n, uint64_t maxext, c
     }
 }
 
+// array storage with an index type narrower than size_t, on extents whose padded hypercube has exactly 2^bits cells: every
+// position fits the index type, the cell COUNT does not - it must still be computed (and allocated) in full width
+template <typename L, typename I>
+static void trace_sized_narrow(std::ofstream & out, std::vector<uint64_t> ext, const char * ev, long & events) {
+    constexpr std::size_t N = 2;
+    using In = cv::vector_d<std::size_t, N>;
+    using A = cb::array<cv::vector_d<float, 1>, I>;
+    using RS = cb::strided<In, A>;
+    using BL = typename L::template type<In, A>;
+    typename RS::configuration_t cfg; cfg[0] = ext[0]; cfg[1] = ext[1];
+    covfie::field<RS> rs(covfie::make_parameter_pack(std::move(cfg), typename A::configuration_t{ext[0] * ext[1]}));
+    { typename covfie::field<RS>::view_t v(rs); for (std::size_t x = 0; x < ext[0]; ++x) for (std::size_t y = 0; y < ext[1]; ++y) v.at(x, y)[0] = (float)(x * 1000 + y); }
+    covfie::field<BL> f(rs);
+    uint64_t size = f.backend().get_backend().get_configuration()[0];
+    typename covfie::field<BL>::view_t v(f);
+    long bad = 0;
+    for (std::size_t x = 0; x < ext[0]; ++x) for (std::size_t y = 0; y < ext[1]; ++y) if (v.at(x, y)[0] != (float)(x * 1000 + y)) ++bad;
+    ++g_checks;
+    if (bad) mismatch(std::string("layout/narrow-index-values/") + L::name, {{"ext", ext}, {"index_bits", sizeof(I) * 8}, {"wrong_cells", bad}});
+    for (auto c : std::vector<std::vector<uint64_t>>{{ext[0] - 1, ext[1] - 1}, {0, ext[1] - 1}, {ext[0] - 1, 0}, {ext[0] / 2, ext[1] / 3}}) {
+        uint64_t idx = index_of<L, N, std::size_t>(ext, c);
+        if (std::string(ev) == "hilbert") out << json({{"e", ev}, {"ext", ext}, {"c", c}, {"d", idx}, {"size", size}}).dump() << "\n";
+        else out << json({{"e", ev}, {"ext", ext}, {"c", c}, {"idx", idx}, {"size", size}}).dump() << "\n";
+        ++events;
+    }
+}
+
 static void trace_hilbert_square(rng & r, std::ofstream & out, int k, long samples, long & events) {
     uint64_t n = 1ull << k;
     using BI = cb::hilbert<cv::vector_d<std::size_t, 2>, idb>;
@@ -415,6 +442,10 @@ int main(int argc, char ** argv) {
         trace_sized<L_mortonp, 4>(r, out, n / 8 + 1, 12, "morton", events);
         trace_sized<L_morton, 3>(r, out, n / 16 + 1, 40, "morton", events);
         trace_sized<L_hilbert, 2>(r, out, n / 4 + 1, 150, "hilbert", events);
+        trace_sized_narrow<L_morton, uint8_t>(out, {16, 16}, "morton", events); trace_sized_narrow<L_mortonp, uint8_t>(out, {9, 16}, "morton", events);
+        trace_sized_narrow<L_hilbert, uint8_t>(out, {16, 11}, "hilbert", events); trace_sized_narrow<L_morton, uint16_t>(out, {256, 256}, "morton", events);
+        trace_sized_narrow<L_mortonp, uint16_t>(out, {200, 129}, "morton", events); trace_sized_narrow<L_hilbert, uint16_t>(out, {256, 3}, "hilbert", events);
+        trace_sized_narrow<L_morton, uint32_t>(out, {40, 70}, "morton", events);
         for (int k = hk_lo; k <= hk_hi; ++k) trace_hilbert_square(r, out, k, n, events);
         g_cases = events;
         summary({{"events", events}});
